@@ -534,3 +534,91 @@ fn c03_chain_enforces_the_255_limit() {
     kani::cover!(total == 255, "maximal chained name");
     kani::cover!(total == 256, "one octet too long");
 }
+
+// @funcs: UncertainName::from_octets, UncertainName::is_slice_absolute, Label::split_from
+// @bound: an octet string made of four labels with symbolic lengths 1..=63 (arbitrary content), optionally followed by a root label: accepted as absolute <=> total <= 255, accepted as relative <=> total <= 254
+// @outside: other label counts near the limits
+#[kani::proof]
+#[kani::unwind(7)]
+fn c03_uncertain_name_length_limits() {
+    use domain::base::name::UncertainName;
+    let mut buf: [u8; 262] = kani::any();
+    let mut pos = 0usize;
+    let mut i = 0;
+    while i < 4 {
+        let l: usize = kani::any();
+        kani::assume(l >= 1 && l <= 63);
+        buf[pos] = l as u8;
+        pos += l + 1;
+        i += 1;
+    }
+    let absolute: bool = kani::any();
+    if absolute {
+        buf[pos] = 0;
+        pos += 1;
+    }
+    match UncertainName::from_octets(&buf[..pos]) {
+        Ok(n) => {
+            assert!(n.is_absolute() == absolute);
+            assert!(pos <= if absolute { 255 } else { 254 });
+        }
+        Err(_) => assert!(pos > if absolute { 255 } else { 254 }),
+    }
+    kani::cover!(!absolute && pos == 254, "maximal relative name");
+    kani::cover!(absolute && pos == 255, "maximal absolute name");
+}
+
+// @funcs: Name::from_slice / check_slice, RelativeName::from_slice / check_slice (length limits)
+// @bound: four labels with symbolic lengths 1..=63 (arbitrary content), with or without a closing root label: Name::from_slice accepts exactly the root-terminated strings of at most 255 octets, RelativeName::from_slice exactly the unterminated ones of at most 254 octets
+// @outside: other label counts near the limits
+#[kani::proof]
+#[kani::unwind(7)]
+fn c03_from_slice_length_limits() {
+    let mut buf: [u8; 262] = kani::any();
+    let mut pos = 0usize;
+    let mut i = 0;
+    while i < 4 {
+        let l: usize = kani::any();
+        kani::assume(l >= 1 && l <= 63);
+        buf[pos] = l as u8;
+        pos += l + 1;
+        i += 1;
+    }
+    let rooted: bool = kani::any();
+    if rooted {
+        buf[pos] = 0;
+        pos += 1;
+    }
+    let abs = Name::from_slice(&buf[..pos]);
+    let rel = RelativeName::from_slice(&buf[..pos]);
+    assert!(abs.is_ok() == (rooted && pos <= 255));
+    assert!(rel.is_ok() == (!rooted && pos <= 254));
+    kani::cover!(abs.is_ok() && pos == 255, "maximal absolute name");
+    kani::cover!(rel.is_ok() && pos == 254, "maximal relative name");
+}
+
+// @funcs: Label::from_slice, CharStr::from_slice (length limits of the leaf types)
+// @bound: octet strings of every length 0..=70 (labels) and 0..=300 (character strings), arbitrary content: a label is accepted exactly up to 63 octets, a character string exactly up to 255
+#[kani::proof]
+#[kani::unwind(4)]
+fn c03_label_and_charstr_length_limits() {
+    use domain::base::charstr::CharStr;
+    let lbuf: [u8; 70] = kani::any();
+    let n: usize = kani::any();
+    kani::assume(n <= 70);
+    let l = Label::from_slice(&lbuf[..n]);
+    assert!(l.is_ok() == (n <= 63));
+    if let Ok(l) = l {
+        assert!(l.len() == n && l.compose_len() as usize == n + 1);
+        assert!(l.is_root() == (n == 0));
+    }
+    let cbuf: [u8; 300] = kani::any();
+    let m: usize = kani::any();
+    kani::assume(m <= 300);
+    let c = CharStr::from_slice(&cbuf[..m]);
+    assert!(c.is_ok() == (m <= 255));
+    if let Ok(c) = c {
+        assert!(c.len() == m && c.compose_len() as usize == m + 1);
+    }
+    kani::cover!(n == 63 && m == 255, "maximal label and character string");
+}
